@@ -44,7 +44,11 @@ def run(rep):
     modP, mapP, fbP = params.get('module'), params.get('map'), params.get('stages')
     txt = E.tmpl_text(rt)
     hs = list(E.holes(rt).items())
-    rep.check(len(hs) == 1 and txt == 'wgpu :: PushConstantRange { stages : PUSH_CONSTANT_STAGES , range : 0 .. #' + hs[0][0] + ' }', 'C13.range-shape', 'range-shape', where,
+    from tokrules import find_struct_expr
+    pr = find_struct_expr(txt, 'wgpu :: PushConstantRange')
+    shape_ok = len(hs) == 1 and pr is not None and pr[1] is not None and set(pr[1]) == {'stages', 'range'} and pr[1]['stages'] == ('PUSH_CONSTANT_STAGES', None) and \
+        pr[1]['range'] == ('0..#' + hs[0][0], None)
+    rep.check(shape_ok, 'C13.range-shape', 'range-shape', where,
               f'the range is `{txt}`; expected `wgpu::PushConstantRange {{ stages: PUSH_CONSTANT_STAGES, range: 0..#size }}` (start literal 0, stages by the exported constant)',
               ok_detail=txt)
     if len(hs) != 1 or modP is None:
